@@ -493,12 +493,16 @@ def translate_fingerprint(vsrc, tsrc):
             branch = s
     if branch is None:
         raise TranslateError("_hash_element: no list/tuple branch")
-    body = [b for b in branch.body if not is_noise(b)]
+    body = [b for b in branch.body if not (isinstance(b, ast.Expr) and isinstance(b.value, ast.Constant))]
     seq = "x"
     if body and isinstance(body[0], ast.Assign) and ast.unparse(body[0].targets[0]) == "items":
         if ast.unparse(body[0].value) != "_safe_sortable_list(list(x)) if isinstance(x, set) else x":
             raise TranslateError("_hash_element: items")
         seq, body = "items", body[1:]            # a set is hashed through its sorted items (the sort stays an oracle)
+    elif len(body) >= 2 and ast.unparse(body[0]) == "hashes = [Vector._hash_element(elem) for elem in x]" \
+            and ast.unparse(body[1]) == "if isinstance(x, set):\n    hashes.sort()":
+        # the item hashes first; a set folds them in ascending order (the input list `xs` is given in that order)
+        seq, body = "hashes", body[2:]
     loops = [b for b in body if isinstance(b, ast.For)]
     if len(loops) != 1 or ast.unparse(loops[0].iter) != seq:
         raise TranslateError("_hash_element: container loop")
@@ -512,6 +516,8 @@ def translate_fingerprint(vsrc, tsrc):
             return f"(if kind == {k} then {seed(node.body)} else {seed(node.orelse)})"
         if isinstance(node, ast.BinOp) and isinstance(node.op, (ast.Add, ast.Mult)):
             return f"({seed(node.left)} {'+' if isinstance(node.op, ast.Add) else '*'} {seed(node.right)})"
+        if isinstance(node, ast.BinOp) and isinstance(node.op, ast.Mod) and ast.unparse(node.right) == "P":
+            return f"(Int.fmod {seed(node.left)} P)"
         if isinstance(node, ast.Call) and ast.unparse(node) == f"len({seq})":
             return "((n : Nat) : Int)"
         raise TranslateError("_hash_element: starting value " + ast.unparse(node)[:60])
@@ -520,13 +526,13 @@ def translate_fingerprint(vsrc, tsrc):
 
     def seed_call(node):
         seed_text.append(seed(node))
-        return "(hashSequenceSeedT kind xs.length)"
+        return "(hashSequenceSeedT P kind xs.length)"
 
     loop_text = _rolling_loop(body, "hashSequence", "the container branch of `Vector._hash_element` (`kind`: 1 set — its sorted items —, "
                               "2 tuple, 3 list)", ["P", "B"], init_fn=seed_call, extra="(kind : Nat) ")
     out.append("/-- translated from the starting value of the accumulator in the container branch of `Vector._hash_element`\n"
-               "    (`kind`: 1 set, 2 tuple, 3 list; `n` = `len(items)`) -/\n"
-               f"def hashSequenceSeedT (kind n : Nat) : Int :=\n  {seed_text[0]}")
+               "    (`kind`: 1 set, 2 tuple, 3 list; `n` = the number of items) -/\n"
+               f"def hashSequenceSeedT (P : Int) (kind n : Nat) : Int :=\n  {seed_text[0]}")
     out.append(loop_text)
     # Vector.fingerprint: memo logic.  `self._fp` is the state, `self._compute_fingerprint_full()` the parameter `compute`
     vf = find_func(vt, "fingerprint", "Vector")
